@@ -17,7 +17,11 @@ From Verif Require Import Bytes.
 (* ------------------------------------------------------------------------------------------- *)
 (* Part 1 — static sink table                                                                    *)
 (* ------------------------------------------------------------------------------------------- *)
-Inductive skind := SLog | SRaise | SRepr.
+(* SLog: a logging call / warning; SRaise: a raise; SRepr: the return of a __repr__ / __str__; SStore: an in-place
+   store (x[k] = v, x.update / setdefault / append ...) into a container that may be one a __repr__ / __str__ of the
+   package formats as a whole — BaseDriver.__repr__ prints the user's own transport_options dict by reference, so what
+   is stored into it later, anywhere, is what repr(driver) shows from then on *)
+Inductive skind := SLog | SRaise | SRepr | SStore.
 
 Record sink := mkSink {
   s_kind : skind; s_file : string; s_line : nat; s_func : string; s_anchored : bool;
@@ -55,7 +59,7 @@ Definition known_region (s : sink) : bool :=
 Definition outside (region : sink -> bool) (l : list sink) : list sink := filter (fun s => negb (region s)) l.
 Definition func_in (f : string) (l : list sink) : bool := existsb (fun s => String.eqb (s_func s) f) l.
 Definition count_kind (k : skind) (l : list sink) : nat :=
-  length (filter (fun s => match s_kind s, k with SLog, SLog | SRaise, SRaise | SRepr, SRepr => true | _, _ => false end) l).
+  length (filter (fun s => match s_kind s, k with SLog, SLog | SRaise, SRaise | SRepr, SRepr | SStore, SStore => true | _, _ => false end) l).
 
 (* ------------------------------------------------------------------------------------------- *)
 (* Part 2 — observables of the channel / login / escalation code                                 *)
